@@ -262,9 +262,10 @@ class LocMap:
             if is_array and key.dtype.kind == DTYPE_DATETIME_KIND:
                 if labels.dtype != key.dtype:
                     labels_ref = labels.astype(key.dtype)
-                    # let Boolean key advance to next branch
-                    # NOTE: an initial value permits an empty key
-                    key = reduce(operator_mod.or_, (labels_ref == k for k in key), np.full(len(labels), False))
+                    # positions of the labels matching each key, in key order (as for any other list of labels; a key of a coarser unit matches every label in that period)
+                    if offset_apply:
+                        return [p + offset for k in key for p in positions[labels_ref == k]] #type: ignore
+                    return [p for k in key for p in positions[labels_ref == k]]
 
             if is_array and key.dtype == DTYPE_BOOL:
                 if offset_apply:
